@@ -4,7 +4,7 @@
 set -u
 ID=$1; SRC=$2; W=/tmp/seedcheck/$ID; T=/tmp/seedcheck/target
 mkdir -p /tmp/seedcheck; rm -rf $W; git -C /repo worktree prune; git -C /repo worktree add -q --detach $W HEAD || exit 3
-demo=$(cd $SRC && git status --porcelain | grep '^??' | grep -v -E 'patch.diff|NOTES.md|target' | awk '{print $2}' | head -1)
+demo=$(cd $SRC && git status --porcelain | grep '^??' | grep -E 'tests/.*\.rs$' | awk '{print $2}' | head -1)
 echo "demo file: $demo"
 mkdir -p $(dirname $W/$demo); cp $SRC/$demo $W/$demo
 crate=$(echo $demo | cut -d/ -f1); pkg=$( [ "$crate" = core ] && echo okane-core || ([ "$crate" = cli ] && echo okane || echo okane-golden) )
